@@ -15,3 +15,5 @@ func TestC03(t *testing.T) { harness.Main(t, "C03", C03Workloads()) }
 func TestC01(t *testing.T) { harness.Main(t, "C01", C01Workloads()) }
 
 func TestC04(t *testing.T) { harness.Main(t, "C04", C04Workloads()) }
+
+func TestC09(t *testing.T) { harness.Main(t, "C09", C09Workloads()) }
